@@ -785,7 +785,7 @@ def units(ctx: Ctx, only=None):
         return [] if replaying else f(ctx)
 
     mal = g(gen_malformed)
-    return [
+    us = [
         Unit("asn1.int", "asn1.int", g(gen_ints), impl_int, prop_pred=pred_int),
         Unit("asn1.int_range", "asn1.int_range", g(gen_int_ranges), impl_int_range, prop_pred=pred_int_range),
         Unit("asn1.int_content", "asn1.int_content", g(gen_int_contents), impl_int_content, prop_pred=pred_int_content),
@@ -796,6 +796,34 @@ def units(ctx: Ctx, only=None):
         # oracle calibration: the Python strict reader used by the predicates == the Coq spec reader
         Unit("asn1.oracle_vs_spec", "asn1.strict", mal, oracle_strict, prop_pred=lambda a, o: None),
     ]
+    _LAST_UNITS[:] = us
+    return us
+
+
+_LAST_UNITS: list = []
+
+
+def oracles(ctx: Ctx):
+    """Green path: evaluate the property predicate (independent encoder / strict reader / template) on the
+    implementation's own output for every generated case, not only where model and implementation differ."""
+    from ..core import run_impl
+
+    for u in _LAST_UNITS:
+        if u.prop_pred is None or u.name in ('asn1.oracle_vs_spec',):
+            continue
+        bad = 0
+        for c in u.cases:
+            o = run_impl(u.impl, c)
+            ctx.oracle_runs += 1
+            try:
+                why = u.prop_pred(c, dec(o) if not o.startswith("!") else None)
+            except Exception as exc:  # noqa: BLE001
+                why = f"property predicate raised {type(exc).__name__}: {exc}"
+            if why:
+                bad += 1
+                if bad <= 2:
+                    ctx.violation("failing-input", f"oracle:{u.name}", {"unit": u.name, "model_unit": u.model_unit, "input": enc(c)[:20000],
+                                                                     "observed_impl": o[:2000], "why": why}, key=f"{u.name}:{enc(c)[:80]}")
 
 
 def search(ctx: Ctx):
